@@ -12,6 +12,7 @@ import (
 	"encoding/json"
 	"fmt"
 	"os"
+	"path/filepath"
 	"regexp"
 	"strconv"
 	"strings"
@@ -59,6 +60,8 @@ type avPos struct {
 	step     string // lines of the step under test; "" = `run: echo`
 	call     bool   // job `test` calls a reusable workflow
 	noRunsOn bool
+	project  bool     // lint inside the scratch project (local reusable workflows are read from it)
+	tolerate []string // anchor phrases of diagnostics of other rules that this configuration provokes by design
 }
 
 const avCallUses = "uses: owner/repo/.github/workflows/w.yml@v1\n"
@@ -214,6 +217,61 @@ var avPositions = func() map[string]avPos {
 	m[st+"env#expr"] = avPos{step: "run: echo\nenv: @@\n"}
 	m[st+"continue-on-error"] = avPos{step: "run: echo\ncontinue-on-error: @@\n"}
 	m[st+"timeout-minutes"] = avPos{step: "run: echo\ntimeout-minutes: @@\n"}
+	// matrix sibling configurations (Availability.tla, MatrixSiblings): var = sib-<rows>-<include>-<exclude>
+	sibSection := func(name, state, lit, target string) string {
+		switch state {
+		case "none":
+			return ""
+		case "expr":
+			return "    " + name + ": ${{ fromJSON(toJSON('" + name + "')) }}\n"
+		}
+		body := lit
+		if target != "" {
+			body = target
+		}
+		out := "    " + name + ":\n" + avIndentAll(body, 6)
+		if state == "elem" {
+			out += "      - ${{ fromJSON(toJSON('" + name + "-element')) }}\n"
+		}
+		return out
+	}
+	states := []string{"none", "lit", "expr", "elem"}
+	for _, r := range []string{"lit", "expr"} {
+		for _, i := range states {
+			for _, x := range states {
+				rows := "    os: [a, b]\n"
+				if r == "expr" {
+					rows = "    os: ${{ fromJSON(toJSON('rows')) }}\n"
+				}
+				v := "#sib-" + r + "-" + i + "-" + x
+				head := "strategy:\n  matrix:\n"
+				if r == "lit" {
+					m[mx+"<row>[*]"+v] = avPos{job: head + "    os:\n      - a\n      - @@\n" +
+						sibSection("include", i, "- os: c\n", "") + sibSection("exclude", x, "- os: a\n", "")}
+				}
+				if i == "lit" || i == "elem" {
+					m[mx+"include[*].<key>"+v] = avPos{job: head + rows +
+						sibSection("include", i, "", "- os: c\n  extra: @@\n") + sibSection("exclude", x, "- os: a\n", "")}
+				}
+				if x == "lit" || x == "elem" {
+					m[mx+"exclude[*].<key>"+v] = avPos{job: head + rows +
+						sibSection("include", i, "- os: c\n", "") + sibSection("exclude", x, "", "- os: @@\n")}
+				}
+			}
+		}
+	}
+	// callee variants of a call job (Availability.tla, CalleeVariants); the scratch project holds callee.yml
+	for _, c := range []struct {
+		tag, uses, in, sec string
+		tol                []string
+	}{
+		{"local-declared", "./.github/workflows/callee.yml", "in1", "sec1", nil},
+		{"local-undeclared", "./.github/workflows/callee.yml", "other", "other", []string{"is not defined in \"./.github/workflows/callee.yml\" reusable workflow"}},
+		{"local-missing", "./.github/workflows/missing.yml", "in1", "sec1", []string{"could not read reusable workflow file for \"./.github/workflows/missing.yml\""}},
+	} {
+		m["jobs.<job_id>.with.<input_id>#"+c.tag] = avPos{job: "uses: " + c.uses + "\nwith:\n  " + c.in + ": @@\n", call: true, project: true, tolerate: c.tol}
+		m["jobs.<job_id>.secrets.<secret_id>#"+c.tag] = avPos{job: "uses: " + c.uses + "\nsecrets:\n  " + c.sec + ": @@\n", call: true, project: true, tolerate: c.tol}
+	}
 	// copies inside a job that calls a reusable workflow (Availability.tla, CallCopies)
 	m["jobs.<job_id>.if#braces-call"] = avPos{job: "if: @@\n" + avCallUses, call: true}
 	for id, pos := range m {
@@ -471,6 +529,85 @@ func avRender(v avVec, neutral bool) (src string, line int, expr string, err err
 	return strings.Replace(tmpl, "@@", val, 1), line, e, nil
 }
 
+const avCalleeSrc = `on:
+  workflow_call:
+    inputs:
+      in1:
+        type: string
+    secrets:
+      sec1:
+        required: false
+jobs:
+  j:
+    runs-on: ubuntu-latest
+    steps:
+      - run: echo
+`
+
+var (
+	avProjOnce sync.Once
+	avProjRoot string
+	avProjErr  error
+)
+
+// avLint lints the workflow; positions with project=true are linted as a file of a scratch project (under
+// $AVAIL_SCRATCH or a temporary directory) that contains .github/workflows/callee.yml.  Diagnostics that the
+// configuration provokes by design in other rules (tolerate) are dropped.
+func avLint(p avPos, src string) ([]Diag, error) {
+	var diags []Diag
+	if !p.project {
+		d, err := lintSrc(src)
+		if err != nil {
+			return nil, err
+		}
+		diags = d
+	} else {
+		avProjOnce.Do(func() {
+			avProjRoot, avProjErr = os.MkdirTemp(os.Getenv("AVAIL_SCRATCH"), "avproj")
+			if avProjErr != nil {
+				return
+			}
+			wf := filepath.Join(avProjRoot, ".github", "workflows")
+			if avProjErr = os.MkdirAll(wf, 0o755); avProjErr != nil {
+				return
+			}
+			avProjErr = os.WriteFile(filepath.Join(wf, "callee.yml"), []byte(avCalleeSrc), 0o644)
+		})
+		if avProjErr != nil {
+			return nil, avProjErr
+		}
+		proj, err := actionlint.NewProject(avProjRoot)
+		if err != nil {
+			return nil, err
+		}
+		l, err := newLinter(nil)
+		if err != nil {
+			return nil, err
+		}
+		errs, err := l.Lint(filepath.Join(avProjRoot, ".github", "workflows", "test.yml"), []byte(src), proj)
+		if err != nil {
+			return nil, err
+		}
+		diags = toDiags(errs)
+	}
+	if len(p.tolerate) == 0 {
+		return diags, nil
+	}
+	kept := diags[:0]
+	for _, d := range diags {
+		drop := false
+		for _, t := range p.tolerate {
+			if strings.Contains(d.Msg, t) {
+				drop = true
+			}
+		}
+		if !drop {
+			kept = append(kept, d)
+		}
+	}
+	return kept, nil
+}
+
 var (
 	avReCtx   = regexp.MustCompile(`^context "([^"]*)" is not allowed here\. `)
 	avReFn    = regexp.MustCompile(`^calling function "([^"]*)" is not allowed here\. `)
@@ -541,7 +678,7 @@ func avBaseProblems(v avVec) []string {
 	src, _, _, err := avRender(nv, true)
 	if err != nil {
 		r = append(r, "render: "+err.Error())
-	} else if diags, err := lintSrc(src); err != nil {
+	} else if diags, err := avLint(avPositions[v.Pos], src); err != nil {
 		r = append(r, "base workflow: lint error: "+err.Error())
 	} else {
 		for _, d := range diags {
@@ -571,7 +708,7 @@ func avRun(v avVec) (out avOut) {
 		return out
 	}
 	out.Src, out.Expr = src, expr
-	diags, err := lintSrc(src)
+	diags, err := avLint(avPositions[v.Pos], src)
 	if err != nil {
 		out.Others = append(out.Others, "lint error: "+err.Error())
 		return out
